@@ -156,10 +156,11 @@ def apply(s, step, ctx):
             check_refinement(ctx, old, res_now, new, logs, sig, uniform_k=None, marked=marked)
             ctx.nt(0 < len(marked) < old.nelements)
         elif step['op'] == 'uniform':
-            if old.nelements * 2 ** old.dim() > CAP[s.kind]:
+            k = step.get('k', 1)
+            if old.nelements * (2 ** old.dim()) ** k > CAP[s.kind]:
                 raise Reject()
-            new = old.refined()
-            check_refinement(ctx, old, res_now, new, logs, sig, uniform_k=1)
+            new = old.refined(k) if k > 1 else old.refined()
+            check_refinement(ctx, old, res_now, new, logs, sig, uniform_k=k)
         else:
             raise ValueError(step['op'])
     if _digest(old) != h0:
@@ -184,9 +185,9 @@ class RefineMachine(HistoryMachine):
     def adaptive(self, picks):
         self.do(dict(op='adaptive', picks=picks))
 
-    @rule()
-    def uniform(self):
-        self.do(dict(op='uniform'))
+    @rule(k=st.sampled_from([1, 1, 2]))
+    def uniform(self, k):
+        self.do(dict(op='uniform', k=k) if k > 1 else dict(op='uniform'))
 
     @rule()
     def back(self):
